@@ -6,6 +6,11 @@ def constructs(rnd=None):
     out = [
         ("$WAKKA", "__xonsh__.env['WAKKA']"),
         ("$x", "__xonsh__.env['x']"),
+        # a variable may be called like a keyword
+        ("$if", "__xonsh__.env['if']"),
+        ("$None", "__xonsh__.env['None']"),
+        ("$(echo $class $HOME)", "__xonsh__.subproc_captured('echo', __xonsh__.env['class'], __xonsh__.env['HOME'])"),
+        ("${$lambda}", "__xonsh__.env[str(__xonsh__.env['lambda'])]"),
         ("${y}", "__xonsh__.env[str(y)]"),
         ("${'a' + b}", "__xonsh__.env[str('a' + b)]"),
         ("${$Q}", "__xonsh__.env[str(__xonsh__.env['Q'])]"),
@@ -72,7 +77,7 @@ TARGET_CONTEXTS = [
     "async def f():\n    async with a as {}:\n        pass\n", "for {} in y:\n    pass\nelse:\n    pass\n", "(x for {} in y)\n",
 ]
 TARGET_CONTEXTS = [t for t in TARGET_CONTEXTS if t]
-TARGET_CONSTRUCTS = [("$T", "__xonsh__.env['T']"), ("${t}", "__xonsh__.env[str(t)]"), ("${'a' + $B}", "__xonsh__.env[str('a' + __xonsh__.env['B'])]")]
+TARGET_CONSTRUCTS = [("$T", "__xonsh__.env['T']"), ("$in", "__xonsh__.env['in']"), ("$True", "__xonsh__.env['True']"), ("${t}", "__xonsh__.env[str(t)]"), ("${'a' + $B}", "__xonsh__.env[str('a' + __xonsh__.env['B'])]")]
 
 # positions the property excludes for C05 (still interesting for C04 when accepted)
 # the construct as the *base* of a binding-target chain (a Load position inside a for / with-as / comprehension target, which the property does
